@@ -97,7 +97,7 @@ def run(chk, repo, tier):
                qualname='scheme', what='%s: no pattern depends on a '
                                        'whole-molecule condition' % lib.name,
                found='; '.join(bad[:5]))
-    chk.need('R04.4', npat, 700, 'shipped pattern strings')
+    chk.need('R04.4', npat, 450, 'shipped pattern strings')
     chk.extra['patterns_audited'] = npat
     chk.exhaustive = True
     # ---- R04.5 grammar connectedness --------------------------------------
